@@ -255,7 +255,34 @@ pub fn case_c05(d: &[u8]) -> c05::Case {
     let nte = 1 + r.idx(24);
     let t_eval = (0..nte).map(|_| place(r)).collect();
     let budget = r.opt(1, |r| r.f(0.1, 0.9));
+    // appended (older corpus files decode to scale 0): exact power-of-two factors of the event functions
+    let mut recipes = recipes;
+    for rc in recipes.iter_mut() {
+        rc.scale = match r.u8() % 8 {
+            0 => (r.u8() as i32) - 128,
+            1 => ((r.u16() % 1900) as i32) - 1000,
+            _ => 0,
+        };
+    }
     c05::Case { base: c09::Case { prob, span, method, rtol, atol, analytic_jac, max_step, recipes }, t_eval, budget }
+}
+
+/// C09: the event part of a C05 case (no terminal flags); one span in eight on a picosecond time axis
+pub fn case_c09(d: &[u8]) -> c09::Case {
+    let mut c = case_c05(d).base;
+    for rc in c.recipes.iter_mut() {
+        rc.terminal = None;
+    }
+    if c.recipes.is_empty() {
+        c.recipes.push(EvRecipe { kind: EvKind::Time, at: Place::Frac(0.37), dir: 0, terminal: None, scale: 0 });
+    }
+    if let Some(b) = d.last() {
+        if b % 8 == 3 {
+            let back = c.span.xend < c.span.x0;
+            c.span = mk_span(0.0, 10f64.powf(-11.3 + 3.3 * (*b as f64) / 255.0), back);
+        }
+    }
+    c
 }
 
 pub fn case_c16(d: &[u8]) -> c16::Case {
